@@ -102,8 +102,67 @@ let tx_main () =
     done
   with End_of_file -> ())
 
+(* mode server: <id> <m|p> <bound> <nsch> {<sid> <nt> <tids>}* <sess n {op s t}* | norms n {..} | normr n {..}> <nf> <positions> *)
+let server_main () =
+  let opt i = if i < 0 then None else Some (n_of_int i) in
+  let parse_schs () =
+    let n = next_int () in
+    times n (fun () -> let id = next_int () in let nt = next_int () in
+      let ts = times nt (fun () -> n_of_int (next_int ())) in { s_id = n_of_int id; s_tabs = ts }) in
+  (try
+    while true do
+      let line = input_line stdin in
+      if line <> "" then begin
+        toks := Array.of_list (Stdlib.List.filter (fun s -> s <> "") (String.split_on_char ' ' line));
+        pos := 0;
+        let id = next () in
+        let _dialect = next () in
+        let bound = next_int () in
+        let schs = parse_schs () in
+        let scen = match next () with
+          | "sess" ->
+            let n = next_int () in
+            ScSess (times n (fun () ->
+              let op = next () in let s = next_int () in let t = next_int () in
+              match op with
+              | "ct" -> SCt (opt s, n_of_int t) | "dt" -> SDt (opt s, n_of_int t)
+              | "cs" -> SCs (n_of_int s, false) | "ds" -> SDs (n_of_int s) | "bad" -> SBadS
+              | o -> failwith ("sstmt " ^ o)))
+          | "norms" -> (match parse_schs () with [d] -> ScNormS d.s_tabs | _ -> failwith "norms")
+          | "normr" -> ScNormR (parse_schs ())
+          | s -> failwith ("scenario " ^ s) in
+        let nf = next_int () in
+        let positions = times nf (fun () -> nat_of_int (next_int ())) in
+        let total = 400 in
+        let fs = fault_stream positions (nat_of_int total) in
+        let srv = { sv_schemas = schs; sv_cur = opt bound } in
+        let r = run_scenario scen srv fs in
+        let is_sess = (match scen with ScSess _ -> true | _ -> false) in
+        let os = match r.r_out with
+          | SOk -> "ok" | SRefused -> "refused" | SErr -> "err"
+          (* Normalize* return Snapshot's error like any other: the caller cannot tell them apart *)
+          | SSnapErr -> if is_sess then "snaperr" else "err"
+          | SFail k -> Printf.sprintf "fail:%d" (int_of_nat k) in
+        let rerr = if is_sess && r.r_ran && not r.r_restored then 1 else 0 in
+        let calls = total - Stdlib.List.length r.r_fs in
+        let ev = function
+          | ECt (s, t) -> Printf.sprintf "ct:%d.%d" (int_of_n s) (int_of_n t)
+          | EDt (s, t) -> Printf.sprintf "dt:%d.%d" (int_of_n s) (int_of_n t)
+          | ECs s -> Printf.sprintf "cs:%d" (int_of_n s)
+          | EDs s -> Printf.sprintf "ds:%d" (int_of_n s) in
+        let tr = if r.r_trace = [] then "-" else String.concat "," (Stdlib.List.map ev r.r_trace) in
+        let fin = if r.r_srv.sv_schemas = [] then "-" else
+          String.concat ";" (Stdlib.List.map (fun s ->
+            Printf.sprintf "%d:%s" (int_of_n s.s_id) (String.concat "," (Stdlib.List.map (fun t -> string_of_int (int_of_n t)) s.s_tabs)))
+            r.r_srv.sv_schemas) in
+        Printf.printf "%s out=%s rerr=%d calls=%d trace=%s final=%s\n" id os rerr calls tr fin
+      end
+    done
+  with End_of_file -> ())
+
 let () =
   if Array.length Sys.argv > 1 && Sys.argv.(1) = "tx" then tx_main () else
+  if Array.length Sys.argv > 1 && Sys.argv.(1) = "server" then server_main () else
   (try
     while true do
       let line = input_line stdin in
